@@ -63,6 +63,8 @@ type spec struct {
 	retry            string
 	failFirst        int // number of leading attempts answering 502
 	explicitCL       bool
+	copyMode         bool // the handler streams its body with io.Copy from a plain reader
+	abort            bool // the handler panics (http.ErrAbortHandler) after writing
 }
 
 func pick(t *rapid.T, label string, thr int64) int64 {
@@ -152,11 +154,19 @@ func genSpec(t *rapid.T) *spec {
 		s.retry = "Attempts() < 3"
 	}
 	s.explicitCL = rapid.IntRange(0, 3).Draw(t, "explicitCL") == 0
+	s.copyMode = rapid.IntRange(0, 3).Draw(t, "copyMode") == 0
+	if s.copyMode && rapid.Bool().Draw(t, "bigCopy") { // more than one io.Copy chunk (32 KiB)
+		s.writes = []int{rapid.IntRange(33000, 120000).Draw(t, "copyLen")}
+		if s.maxResp > 0 {
+			s.maxResp = rapid.SampledFrom([]int64{40000, 70000, 200000}).Draw(t, "copyMax")
+		}
+	}
+	s.abort = s.retry == "" && rapid.IntRange(0, 5).Draw(t, "abort") == 0
 	return s
 }
 
 func (s *spec) String() string {
-	return fmt.Sprintf("%s reqBody=%d chunked=%v memReq=%d maxReq=%d | memResp=%d maxResp=%d status=%d writes=%v retry=%q failFirst=%d explicitCL=%v", s.method, s.reqBody, s.chunked, s.memReq, s.maxReq, s.memResp, s.maxResp, s.status, s.writes, s.retry, s.failFirst, s.explicitCL)
+	return fmt.Sprintf("%s reqBody=%d chunked=%v memReq=%d maxReq=%d | memResp=%d maxResp=%d status=%d writes=%v retry=%q failFirst=%d explicitCL=%v copyMode=%v abort=%v", s.method, s.reqBody, s.chunked, s.memReq, s.maxReq, s.memResp, s.maxResp, s.status, s.writes, s.retry, s.failFirst, s.explicitCL, s.copyMode, s.abort)
 }
 
 type onlyReader struct{ r io.Reader }
@@ -194,7 +204,12 @@ func TestC15_LimitsAndTempFiles(t *testing.T) {
 			w.Header().Set("X-Attempt", fmt.Sprint(invocations))
 			w.WriteHeader(st)
 			for _, n := range s.writes {
-				_, _ = w.Write(bytes.Repeat([]byte{byte('0' + invocations)}, n))
+				chunk := bytes.Repeat([]byte{byte('0' + invocations)}, n)
+				if s.copyMode {
+					_, _ = io.Copy(w, onlyReader{bytes.NewReader(chunk)}) // as http.ServeContent or a pipe would
+				} else {
+					_, _ = w.Write(chunk)
+				}
 			}
 			if len(tempFiles()) > 0 {
 				sawSpill = true
@@ -202,13 +217,29 @@ func TestC15_LimitsAndTempFiles(t *testing.T) {
 			// bytes the response buffer accepted (a write that would cross the maximum is refused as a whole)
 			accepted := int64(0)
 			for _, n := range s.writes {
-				if s.maxResp > 0 && accepted+int64(n) > s.maxResp {
-					continue
+				pieces := []int{n}
+				if s.copyMode { // io.Copy hands the body over in 32 KiB pieces
+					pieces = nil
+					for left := n; left > 0; left -= 32 << 10 {
+						if left > 32<<10 {
+							pieces = append(pieces, 32<<10)
+						} else {
+							pieces = append(pieces, left)
+						}
+					}
 				}
-				accepted += int64(n)
+				for _, p := range pieces {
+					if s.maxResp > 0 && accepted+int64(p) > s.maxResp {
+						continue
+					}
+					accepted += int64(p)
+				}
 			}
 			if accepted > s.memResp && len(tempFiles()) == 0 {
 				notSpilled = fmt.Sprintf("attempt %d wrote %d accepted response bytes, more than MemResponseBodyBytes=%d, but no temporary file exists: the body was not spilled to disk", invocations, accepted, s.memResp)
+			}
+			if s.abort {
+				panic(http.ErrAbortHandler)
 			}
 		})
 		opts := []buffer.Option{buffer.MemRequestBodyBytes(s.memReq), buffer.MaxRequestBodyBytes(s.maxReq), buffer.MemResponseBodyBytes(s.memResp), buffer.MaxResponseBodyBytes(s.maxResp)}
@@ -227,9 +258,14 @@ func TestC15_LimitsAndTempFiles(t *testing.T) {
 			req.ContentLength = int64(s.reqBody)
 		}
 		rec := sim.NewRecorder()
+		aborted := false
 		func() {
 			defer func() {
 				if p := recover(); p != nil {
+					if s.abort && p == http.ErrAbortHandler {
+						aborted = true
+						return
+					}
 					t.Fatalf("buffer panicked: %v (%s)", p, s)
 				}
 			}()
@@ -253,6 +289,8 @@ func TestC15_LimitsAndTempFiles(t *testing.T) {
 			wantAttempts = 3
 		}
 		switch {
+		case aborted:
+			// the exchange completed with an error (aborted handler): only the temp-file clause applies
 		case reqOver:
 			if rec.Status() != http.StatusRequestEntityTooLarge {
 				t.Fatalf("request body of %d bytes exceeds MaxRequestBodyBytes=%d but the client got status %d, want 413 (%s)", s.reqBody, s.maxReq, rec.Status(), s)
@@ -322,6 +360,12 @@ func TestC15_LimitsAndTempFiles(t *testing.T) {
 		}
 		if int64(total) == s.maxResp || int64(s.reqBody) == s.maxReq {
 			cl = append(cl, "size==max")
+		}
+		if aborted {
+			cl = append(cl, "handler-aborted-after-writing")
+		}
+		if s.copyMode {
+			cl = append(cl, "body-streamed-with-io.Copy")
 		}
 		vstat.Case(s.String(), nt, cl, map[string]any{"case": s.String(), "client_status": rec.Status(), "invocations": invocations})
 	})
